@@ -26,6 +26,11 @@ TRUSTED = ['modelled not verified: CPython float arithmetic = IEEE-754 binary64 
            'rounded, builtin sum() of CPython 3.12 (Neumaier compensated; transliterated in FloatModel.sum_int/sum_float), '
            'libm pow(x, 1.0) = x, libm pow(x, 2.0) within one ulp of x*x (where it differs from x*x the value CPython '
            'computes is given to the model as a hint and accepted only within one ulp)',
+           'axioms (only under C12_float_sum_error_bound / C12_float_unit_roundoff; the C12_exact_* theorems are closed '
+           'under the global context): Coq standard library FloatAxioms (Prim2SF_valid, SF2Prim_Prim2SF, Prim2SF_SF2Prim, '
+           'add_spec, abs_spec, eqb_spec: the specification of the primitive binary64 operations, used by Flocq '
+           'IEEE754.PrimFloat) and the axioms of Reals (ClassicalDedekindReals.sig_forall_dec, sig_not_dec, '
+           'Classical_Prop.classic, FunctionalExtensionality.functional_extensionality_dep); Flocq 4.1.0',
            'modelled not verified: rs.ops.scan / rs.ops.map delivery (one state per item, seed deep-copied per key), '
            'RxPY synchronous delivery, multiplex/memory store keeping the scan state per key']
 ASSUMPTIONS = ['finite inputs; every int item and every int partial sum is below 2^53 in magnitude; no overflow of a '
@@ -192,7 +197,7 @@ def generate(rng, tier):
             longs.append(mk_case(rng, agg, rng.choice(['ints', 'mixed', 'cancel']), 3000, mode='plain',
                                  modes=('reduce',) if agg in ('fvar', 'fstd') else ('stream', 'reduce')))
         for k, lc in enumerate(longs):
-            pos = min(len(cases), k * SHARD)
+            pos = min(len(cases), k * SHARD + SHARD // 2)     # (not first: the evidence samples the first cases)
             cases.insert(pos, lc)
     return cases
 
@@ -561,17 +566,23 @@ CLAIM = {
             'value. The same generic functions instantiated at CPython numbers (int | binary64 via Coq primitive '
             'floats, int/float mixing of the seeds 0.0, (0,0), (None,0,0), builtin sum of CPython 3.12, math.sqrt) are '
             'tied BIT-EXACTLY to rxsci by evaluating them in Coq on the inputs the operators were run on (plain, '
-            'multiplexed, two keys, with key_mapper, reduce=False every emitted value and reduce=True). NOT proved: '
-            'the floating-point error bound (relative error proportional to machine epsilon, count and conditioning) '
-            '- it is TESTED by the oracle against exact rational arithmetic on every prefix with the explicit bound '
-            'given in `rule`.',
-    'note': 'Trusted: Coq kernel+VM incl. primitive 63-bit integers and binary64 floats (evaluation only; no theorem '
-            'depends on them); hand-written generic model of rxsci/math/*.py tied by correspondence only; CPython '
+            'multiplexed, two keys, with key_mapper, reduce=False every emitted value and reduce=True). Of the '
+            'floating-point error bound only the one for `sum` is proved (C12_float_sum_error_bound, through Flocq: on '
+            'binary64 items without overflow of a running sum, |fl_sum - sum x_i| <= ((1+2^-53)^n - 1) * sum |x_i|, stated '
+            'on the very function the correspondence evaluates). NOT proved: the error bound (relative error '
+            'proportional to machine epsilon, count and conditioning) for mean, the Welford variance/stddev and the '
+            'two-pass formal variance/stddev - it is TESTED by the oracle against exact rational arithmetic on every '
+            'prefix with the explicit bound given in `rule`.',
+    'note': 'Trusted: Coq kernel+VM incl. primitive 63-bit integers and binary64 floats (evaluation only; no '
+            'C12_exact_* theorem depends on them). C12_float_sum_error_bound and C12_float_unit_roundoff depend on '
+            'standard-library axioms: FloatAxioms.{Prim2SF_valid, SF2Prim_Prim2SF, Prim2SF_SF2Prim, add_spec, abs_spec, '
+            'eqb_spec} and the Reals axioms ClassicalDedekindReals.sig_forall_dec, ClassicalDedekindReals.sig_not_dec, '
+            'Classical_Prop.classic, FunctionalExtensionality.functional_extensionality_dep (via Flocq 4.1.0); hand-written generic model of rxsci/math/*.py tied by correspondence only; CPython '
             'float semantics, float(int) below 2^53, builtin sum (Neumaier) and math.sqrt are modelled; libm pow(x,2.0) '
             'is modelled as "x*x or, where CPython says otherwise, the supplied value within one ulp of x*x". '
             'sqrt is uninterpreted in the exact theorems. formal.variance is modelled WITH the repair of '
             'DESIGN-repairs.md (acc.clear() only when reduce is True).',
     'technique': 'Coq proof (induction over the item list with the invariant (sum, sum of squares, count), `field` over '
-                 'Qc; generic scan lemma for stream-vs-reduce) + vm_compute bit-exact correspondence on primitive floats '
-                 '+ exact-rational error-bound oracle',
+                 'Qc; generic scan lemma for stream-vs-reduce; Flocq Bplus_correct + FLT_plus_error_N_ex for the summation '
+                 'bound) + vm_compute bit-exact correspondence on primitive floats + exact-rational error-bound oracle',
 }
